@@ -92,7 +92,7 @@ def layer_a_int_units(quick: bool, wide: bool = False) -> List[Tuple[str, List[D
     return units
 
 
-MASKS = [0x0F, 0xF0, 0x3C, 0xFF00, 0x0FF0, 0x8001]
+MASKS = [0x0F, 0xF0, 0x3C, 0xFF00, 0x0FF0, 0x8001, 0x80, 0x10, 0x01]
 
 
 def layer_a_mask_units(quick: bool) -> List[Tuple[str, List[Dict[str, Any]]]]:
@@ -122,11 +122,14 @@ def layer_a_mask_units(quick: bool) -> List[Tuple[str, List[Dict[str, Any]]]]:
                         vals = [v.to_bytes(n // 8, "big") for v in vals_i]
                     progs.append(one_value_program(pid, {"dct": std(base, n, None, order, mask=mask)}, None, None, vals,
                                                    ("mask", base, f"n{n}")))
-                    if order and n in (8, 16) and mask in (0x0F, 0x3C, 0x0FF0, 0x8001):
+                    if order and n in (8, 16) and mask in (0x0F, 0x3C, 0x0FF0, 0x8001, 0x80, 0x10, 0x01):
                         # IS-CONDENSED: only the static metadata (C08) has an expectation here; the wire format of
                         # condensed masks is outside the reference's envelope (DontCare)
+                        # (odxtools' reading, pinned by its tests: the internal value carries its bits at the mask's positions and
+                        # the wire carries them shifted together -- so in-mask values must at least come back unchanged)
+                        cvals = list(vals[:4]) + [vals[-1]]
                         progs.append(one_value_program(pid + "_c", {"dct": std(base, n, None, order, mask=mask, condensed=True)}, None, None,
-                                                       vals[:4], ("mask-condensed", base, f"n{n}")))
+                                                       cvals, ("mask-condensed", base, f"n{n}")))
                         # IS-CONDENSED="false" spelled out means the same as leaving the attribute out
                         progs.append(one_value_program(pid + "_cf", {"dct": std(base, n, None, order, mask=mask, condensed=False)}, None, None,
                                                        vals[:4], ("mask", base, f"n{n}")))
@@ -156,6 +159,12 @@ def layer_a_float_units(quick: bool, wide: bool = False) -> List[Tuple[str, List
     for base in ("A_FLOAT32", "A_FLOAT64"):
         progs.append(one_value_program(f"f2i_{base[-2:]}", {"dct": std(base, 32 if base == "A_FLOAT32" else 64), "phys": "A_INT32", "cm": lin}, None, None,
                                        [1, -5, 0, 100000] + ([1 << 40, 1.5] if wide else []), ("float", base + "-to-int")))
+    # a 64-bit counter through a LINEAR method: integers between 2^52 and 2^53 are still exact in double precision, but
+    # only just (x + 0.5 is not representable there)
+    lin1000 = {"cat": "LINEAR", "i2p": [{"num": [1000, 1], "den": [1]}]}
+    big = [(1 << 52) + 1, (1 << 52) + 3, (1 << 53) - 1001, (1 << 53) - 1003, 5, 1 << 40]
+    progs.append(one_value_program("lin64", {"dct": std("A_UINT32", 64), "phys": "A_UINT32", "cm": lin1000}, None, None,
+                                   [x + 1000 for x in big], ("float", "A_UINT32-linear-64bit")))
     return [("A/float", progs)]
 
 
@@ -466,6 +475,8 @@ def templates() -> Dict[str, Any]:
     reg("CCNIB", 1, lambda i: [{}], lambda i: [P("CODED-CONST", f"nl{i}", dct=std("A_UINT32", 4), value=0xA, bit=0),
                                                P("CODED-CONST", f"nh{i}", dct=std("A_UINT32", 4), value=0x5, bit=4)], rel=[(0, 0), (1, 0)])
     reg("CCMM", None, lambda i: [{}], lambda i: [P("CODED-CONST", f"cm{i}", dct={"k": "MINMAX", "base": "A_ASCIISTRING", "min": 1, "max": 4, "term": "ZERO"}, value="AB")])
+    reg("CNV", 1, lambda i: [{f"vn{i}": 0}, {f"vn{i}": 3}, {f"vn{i}": 15}],  # a constant nibble and a free nibble in one byte
+        lambda i: [P("CODED-CONST", f"cn{i}", dct=std("A_UINT32", 4), value=0x5, bit=4), P("VALUE", f"vn{i}", dop="u4", bit=0)], rel=[(0, 0), (1, 0)])
     reg("PC", 1, lambda i: [{}], lambda i: [P("PHYS-CONST", f"pc{i}", dop="i8lin", const=7)])
     reg("V8", 1, lambda i: [{f"v{i}": 0}, {f"v{i}": 1}, {f"v{i}": 255}], lambda i: [P("VALUE", f"v{i}", dop="u8")])
     reg("V12b", 2, lambda i: [{f"w{i}": 0}, {f"w{i}": 0xABC}, {f"w{i}": 0xFFF}], lambda i: [P("VALUE", f"w{i}", dop="u12", bit=3)])
@@ -542,6 +553,8 @@ def templates() -> Dict[str, Any]:
     reg("DTCL", 3, lambda i: [{f"dl{i}": 0x0C0001}, {f"dl{i}": 0x0B0001}, {f"dl{i}": "B0001"}], lambda i: [P("VALUE", f"dl{i}", dop="dtc3l")])
     reg("DTCENV", None, lambda i: [{f"dtc{i}": 1, f"env{i}": {"e_all": 5}}, {f"dtc{i}": 0x123456, f"env{i}": {"e_all": 5, "e_spec": 0x1234}}, {f"dtc{i}": 0, f"env{i}": {"e_all": 7}}],
         lambda i: [P("VALUE", f"dtc{i}", dop="dtc3"), P("VALUE", f"env{i}", dop=f"@ENV@{i}")])
+    reg("DTCENVR", None, lambda i: [{f"dtr{i}": 1, f"envr{i}": {"e_all": 5}}, {f"dtr{i}": 0x123456, f"envr{i}": {"e_all": 5, "e_spec": 0x1234}}],
+        lambda i: [P("VALUE", f"dtr{i}", dop="dtc3"), P("VALUE", f"envr{i}", dop=f"@ENVR@{i}")])
     reg("BZ", None, lambda i: [{f"bz{i}": b""}, {f"bz{i}": b"\x41"}, {f"bz{i}": b"\x41\x42\x43"}], lambda i: [P("VALUE", f"bz{i}", dop="bz")])
     reg("BEOP", None, lambda i: [{f"be{i}": b"\x41"}, {f"be{i}": b"\x00\x41\xff"}], lambda i: [P("VALUE", f"be{i}", dop="beop")], last_only=True)
     reg("LEAD", None, lambda i: [{f"ld{i}": b""}, {f"ld{i}": b"\x41\x42"}], lambda i: [P("VALUE", f"ld{i}", dop="lead8")])
@@ -556,6 +569,9 @@ def templates() -> Dict[str, Any]:
     reg("NRC4", 1, lambda i: [{f"nq{i}": 1}, {f"nq{i}": 3}],
         lambda i: [P("VALUE", f"nq{i}", dop="u4", bit=0), P("NRC-CONST", f"nrd{i}", dct=std("A_UINT32", 4), values=[1, 3], bit=0)],
         rel=[(0, 0), (1, 0)], response_only=True)
+    reg("NRCHN", 1, lambda i: [{f"nh{i}": 0x10}, {f"nh{i}": 0x2F}, {f"nh{i}": 0x31}],  # 0x31: the low nibble looks allowed, the constant's (upper) nibble is not
+        lambda i: [P("VALUE", f"nh{i}", dop="u8"), P("NRC-CONST", f"nrh{i}", dct=std("A_UINT32", 4), values=[1, 2], bit=4)],
+        rel=[(0, 0), (1, 0)], response_only=True)
     reg("MRP1", 1, lambda i: [{}], lambda i: [P("MATCHING-REQUEST-PARAM", f"mr{i}", rq_byte=0, len=1)], response_only=True)
     reg("MRP2", 2, lambda i: [{}], lambda i: [P("MATCHING-REQUEST-PARAM", f"ms{i}", rq_byte=1, len=2)], response_only=True)
     reg("NRCV", 1, lambda i: [{f"nv{i}": 0x11}, {f"nv{i}": 0x31}],
@@ -564,7 +580,7 @@ def templates() -> Dict[str, Any]:
 
 
 SIGMA_FULL = ["CC8", "CC16L", "CCNIB", "PC", "V8", "V12b", "V8b4", "VF32", "SLK", "VLIN", "VDEF", "VTT", "RES8", "RES4", "SYS", "LK", "TKS", "TKSROW", "SFLAT",
-              "SSUB", "SNEST", "SSIZED", "SF2", "SF2p", "DL1", "DL2", "EOP", "EMLAST", "EMCC", "MUXd", "MUXn", "MUXe", "MUXf", "SDYN", "EOPD", "DLD", "EMD", "MUXD", "EOPDE", "EOPLK", "SKB2", "SKB4", "VLDEF", "DTC", "DTCENV", "BZ", "BEOP", "LEAD", "SFV", "EMT", "EMTC", "TKS2", "CCMM", "LKSAME", "RES72", "MUXo", "TKSAME", "DTCL", "TKSN", "RES68b", "RES8b4"]
+              "SSUB", "SNEST", "SSIZED", "SF2", "SF2p", "DL1", "DL2", "EOP", "EMLAST", "EMCC", "MUXd", "MUXn", "MUXe", "MUXf", "SDYN", "EOPD", "DLD", "EMD", "MUXD", "EOPDE", "EOPLK", "SKB2", "SKB4", "VLDEF", "DTC", "DTCENV", "BZ", "BEOP", "LEAD", "SFV", "EMT", "EMTC", "TKS2", "CCMM", "LKSAME", "RES72", "MUXo", "TKSAME", "DTCL", "TKSN", "RES68b", "RES8b4", "DTCENVR", "CNV"]
 SIGMA_SYS = ["SYTS", "SYMINU", "SYHOUR", "SYTZ", "SYDAY", "SYWEEK", "SYMONT", "SYYEAR", "SYCENT", "SYTEST", "SYUSER"]
 SIGMA_3 = ["CC8", "V8", "V12b", "V8b4", "VDEF", "RES8", "LK", "TKS", "SFLAT", "SSIZED", "SF2p", "DL1", "EOP", "MUXd", "DTCENV", "BZ", "SDYN", "EOPD"]
 SIGMA_4 = ["CC8", "V12b", "SSIZED", "DL1", "MUXd", "BZ"]
@@ -645,6 +661,10 @@ def build_program(seq: List[Tuple[str, str]], kind: str = "REQUEST", request: Op
             if isinstance(p.get("dop"), str) and p["dop"].startswith("@PLENSAME@"):  # the outer key has the name of the nested structure's key
                 dn = f"pls_{pid}_{idx}"
                 dops.append({"name": dn, "dct": {"k": "PLEN", "base": "A_BYTEFIELD", "key": "lk", "key_id": f"L.LK.{pid}.{idx}"}})
+                p["dop"] = dn
+            if isinstance(p.get("dop"), str) and p["dop"].startswith("@ENVR@"):  # ALL-VALUE environment data listed last
+                dn = f"edr_{pid}_{idx}"
+                dops.append({"kind": "envdesc", "name": dn, "param": f"dtr{idx}", "envdatas": ["env_spec", "env_all"]})
                 p["dop"] = dn
             if isinstance(p.get("dop"), str) and p["dop"].startswith("@ENV@"):
                 dn = f"ed_{pid}_{idx}"
@@ -730,6 +750,7 @@ def layer_c_programs(quick: bool, overlap: bool = False) -> List[Dict[str, Any]]
     for tail in ([], [("V8", "auto")], [("BZ", "auto")]):
         add([("CC8", "auto"), ("MRP1", "auto"), ("NRC4", "auto")] + tail, kind="NEG-RESPONSE", request=rq)
         add([("CC8", "auto"), ("NRCV", "auto")] + tail, kind="NEG-RESPONSE", request=rq)
+        add([("CC8", "auto"), ("MRP1", "auto"), ("NRCHN", "auto")] + tail, kind="NEG-RESPONSE", request=rq)
     add([("CC8", "auto"), ("MRP1", "auto"), ("NRCV", "auto")], kind="NEG-RESPONSE", request=rq)
     add([("CC8", "auto"), ("MRP1", "at"), ("NRCV", "at")], kind="NEG-RESPONSE", request=rq)
     return progs
